@@ -284,7 +284,7 @@ Proof.
     assert (Hx : forall e, In u (E (evs ++ [e]))) by (intro e; rewrite E_app; apply in_app_iff; left; exact Hin).
     destruct (r_slots t) as [[|sl0 sls]|].
     + destruct (try_allocation c s t) as [s1 res]. destruct res; eapply IH; eauto.
-    + eapply IH; eauto.
+    + destruct (negb (forallb (slot_known (nodes s)) (sl0 :: sls))); eapply IH; eauto.
     + destruct (try_allocation c s t) as [s1 res]. destruct res; eapply IH; eauto.
 Qed.
 
